@@ -75,7 +75,7 @@ func writeManifest() {
 		})
 	}
 	m["checks"] = checks
-	var na []map[string]string
+	na := []map[string]string{}
 	for _, id := range allPropertyIDs() {
 		if props[id] != nil {
 			continue
